@@ -58,7 +58,7 @@ if confirmed:
             lines = [l for l in o.splitlines() if 'VIOLATION' in l or 'KNOWN' in l]
             meta['ran'].append({'cmd': f'check.py {p} --tier quick', 'exit': rc, 'lines': lines[:3], 'secs': round(time.time() - t0)})
             print(p, 'exit', rc, lines[:2])
-            for l in lines[:1]:
+            for l in [x for x in lines if 'replay=' in x][:1]:
                 rp = l.split('replay=')[1].split()[0]
                 try:
                     meta['replay_excerpt'] = json.load(open(os.path.join('/verif', rp)))
